@@ -17,6 +17,10 @@ func old[T any](x T) T { return x }
 // entry(x), in a loop invariant, is the value of x when the loop was entered.
 func entry[T any](x T) T { return x }
 
+// prev(x), in a `loop k step` clause, is the value of x at the start of the
+// current iteration.
+func prev[T any](x T) T { return x }
+
 func implies(a, b bool) bool { return !a || b }
 
 func iff(a, b bool) bool { return a == b }
@@ -51,6 +55,21 @@ func vExists(lo, hi int, f func(int) bool) bool {
 // Freshness cannot be observed by executing code; when executed it checks only
 // the first alternative where decidable and otherwise reports true.
 func sameOrFresh[T any](res, src []T) bool { return true }
+
+// distinctArrays(a, b): a and b are backed by different arrays (so writing
+// through one, within its capacity, cannot change the other). Not observable
+// in general; when executed it compares the first elements' addresses.
+func distinctArrays[T any](a, b []T) bool {
+	if cap(a) == 0 || cap(b) == 0 {
+		return true
+	}
+	return &a[:1][0] != &b[:1][0]
+}
+
+// unchanged(s), in a postcondition or invariant: the array backing s holds what
+// it held on entry. (Executed: trivially true; the contents are compared through
+// the other clauses.)
+func unchanged[T any](s []T) bool { return true }
 
 // bigc denotes the integer written in decimal in s. It exists for constants
 // that do not fit Go's integer types; contracts using it are math-only (the
